@@ -132,12 +132,39 @@ def run_case(case, sc):
             # favour selections that contain `let x = <expr reading the outer x>`
             cands.sort(key=self_shadow, reverse=True)
             cands = cands[:2] + rng.sample(cands[2:], 3)
+    # runs of sibling statements: a whole pure block body (lets, discarded pure expressions, final value) selected at once
+    runs = []
+
+    def pure_stmt(x):
+        if x["k"] == "let":
+            return x["e"]["pure"] and x["e"]["total"]
+        if x["k"] == "expr":
+            return x["e"]["pure"] and x["e"]["total"]
+        return False
+
+    def find_runs(n):
+        if isinstance(n, dict):
+            for key in ("then", "els", "body"):
+                b = n.get(key)
+                if isinstance(b, list) and len(b) >= 2 and all(isinstance(x, dict) and "_span" in x and pure_stmt(x) for x in b) \
+                        and b[-1]["k"] == "expr" and b[-1]["e"]["ty"] != G.UNIT and b[0]["k"] == "let" \
+                        and not (isinstance(b[-1]["e"]["ty"], list) and b[-1]["e"]["ty"][0] == "Fun"):
+                    runs.append((b[0]["_span"][0], b[-1]["_span"][1], b))
+            for v in n.values():
+                find_runs(v)
+        elif isinstance(n, list):
+            for v in n:
+                find_runs(v)
+    find_runs(pr["funs"])
+    find_runs(pr["main"])
+    rng.shuffle(runs)
+    run_cands = [({"k": "stmt-run", "ty": b[-1]["e"]["ty"], "pure": True, "total": True, "_n": len(b)}, a, z) for a, z, b in runs[:2]]
     keys = set()
-    for e, st, en in cands:
-        for tool in ("variable", "function"):
+    for e, st, en in cands + run_cands:
+        for tool in (("function",) if e["k"] == "stmt-run" else ("variable", "function")):
             r = core.run_garden(["reftest-extract-" + tool, path, str(st), str(en), "--name", "verif_extracted"],
                                 timeout=30, cwd=sc.dir)
-            ctx = enc.get(id(e), "?")
+            ctx = enc.get(id(e), "?") if e["k"] != "stmt-run" else "block"
             kbase = "%s|%s|%s|%s|%s" % (tool, e["k"], ctx, "vars" if has_var(e) else "closed", "annotated" if case["seed"] % 2 == 0 else "bare")
             detail = {"src": src, "selection": [st, en], "selected_text": src[st:en], "tool": tool}
             wit = dict(case, only=[st, en, tool])
